@@ -275,6 +275,7 @@ func runC08(c *Ctx) {
 			return out
 		}
 		var pongs []*ssa.Call
+		helperArg := map[ssa.Value]ssa.Value{} // parameters of the helper that builds the reply -> arguments of the Ping case
 		var pingFrame ssa.Value = fn.Params[1] // the received frame, as the function that builds the reply names it
 		for _, b := range region(opPing) {
 			for _, in := range b.Instrs {
@@ -287,6 +288,9 @@ func runC08(c *Ctx) {
 						for i, a := range call.Call.Args {
 							if strip(a) == ssa.Value(fn.Params[1]) && i < len(h.Params) {
 								pingFrame = h.Params[i]
+							}
+							if i < len(h.Params) {
+								helperArg[h.Params[i]] = a
 							}
 						}
 						for _, pc := range callsToFn(h, w.prepareWrite) {
@@ -302,9 +306,23 @@ func runC08(c *Ctx) {
 			arg := pongs[0].Call.Args[1]
 			sp := callChainHas(arg, w.setPayload)
 			isPong := callChainHas(arg, w.setPong) != nil
+			// a builder shared by all control frames: SetOpcode(opcode) with the Ping case passing OpcodePong
+			if so := callChainHas(arg, p.Method("codec/websocket", "Frame", "SetOpcode")); so != nil && len(so.Call.Args) == 2 {
+				opv := so.Call.Args[1]
+				if a, ok := helperArg[stripConv(opv)]; ok {
+					opv = a
+				}
+				if isConstInt(opv, opPong) {
+					isPong = true
+				}
+			}
 			echo := false
 			if sp != nil && len(sp.Call.Args) == 2 {
-				if pc, ok := strip(sp.Call.Args[1]).(*ssa.Call); ok && isCallToFn(pc, w.payloadM) && strip(pc.Call.Args[0]) == pingFrame {
+				pv := sp.Call.Args[1]
+				if a, ok := helperArg[stripConv(pv)]; ok {
+					pv = a
+				}
+				if pc, ok := strip(pv).(*ssa.Call); ok && isCallToFn(pc, w.payloadM) && (strip(pc.Call.Args[0]) == pingFrame || strip(pc.Call.Args[0]) == ssa.Value(fn.Params[1])) {
 					echo = true
 				}
 			}
